@@ -441,12 +441,12 @@ set_option synthInstance.maxSize 1024 in
 that the generator returns numbers above 1 (the real one returns two primes). -/
 theorem properClause_needs_generator : ¬ ProperClauseAnyGenerator := by
   intro hcl
-  let n : Nat := 2 ^ 64 + 13
+  let n : Nat := 2 ^ 65 + 13      -- 66 bits: the keypair check consults the generator for even sizes only (D21)
   let orc : RsaOracles :=
-    { orcEx with keypairTable := [(n >>> 1, [0])], keypairGen := fun _ _ _ => (1, n) }
+    { orcEx with keypairTable := [(n >>> 2, [0])], keypairGen := fun _ _ _ => (1, n) }
   have hrun : view (checkAllRSAFull orc [⟨n, 65537⟩]) =
-      .ok ([(true, ["CheckSizes", "CheckContinuedFractions", "CheckLowHammingWeight",
-                    "CheckKeypairDenylist"], [("N_FACTORS", .factors [1, n])])],
+      .ok ([(true, ["CheckSizes", "CheckContinuedFractions", "CheckKeypairDenylist"],
+            [("N_FACTORS", .factors [1, n])])],
         true) := by decide +kernel
   cases hr : checkAllRSAFull orc [⟨n, 65537⟩] with
   | error e => rw [hr] at hrun; cases hrun
